@@ -614,9 +614,14 @@ func genCalls(r *rand.Rand) cpuCase {
 		top = g.label()
 		g.place(top)
 	}
+	f2 := g.label() // second entry point, directly at the return instruction
 	for i := 0; i < sites; i++ {
 		g.body(r.Intn(3), false)
-		g.emit("jal ra, %s", f)
+		if r.Intn(3) == 0 {
+			g.emit("jal ra, %s", f2) // the return's operand comes straight from this jal (forwarded)
+		} else {
+			g.emit("jal ra, %s", f)
+		}
 		g.body(1+r.Intn(2), false)
 	}
 	if loop {
@@ -625,10 +630,11 @@ func genCalls(r *rand.Rand) cpuCase {
 	}
 	g.emit("j %s", done)
 	g.place(f)
-	g.body(1+r.Intn(4), false)
+	g.body(r.Intn(4), false)
 	if r.Intn(2) == 0 {
 		g.emit("mv %s, ra", g.reg())
 	}
+	g.place(f2)
 	g.emit("jalr zero, ra, 0")
 	g.place(done)
 	g.body(r.Intn(3), false)
@@ -673,8 +679,55 @@ func genLoops(r *rand.Rand) cpuCase {
 	return cpuCase{family: "loops", text: g.text(), regs: initRegs(r, g), memSize: ms, mem: make([]int8, ms)}
 }
 
+// G-dispatch: computed dispatch — the SAME jalr is reached once through a jump (its operand was written long
+// before and is read from the register file) and once by fall-through (operand written in the previous cycle:
+// forwarded), with different targets. Every register is written at most once per >= 12 executed instructions
+// (fillers use distinct registers), so the program stays outside the renaming window of KF-ooo-rename.
+func genDispatch(r *rand.Rand) cpuCase {
+	ms := 64
+	g := newGen(r, 16, ms)
+	regs := append([]int{}, g.data...)
+	nm := func(i int) string { return regNames[regs[i]] }
+	t, x := nm(0), nm(1)
+	pre := r.Intn(3)
+	for i := 0; i < pre; i++ {
+		g.emit("addi %s, zero, %d", nm(13+i), g.smallImm())
+	}
+	nf := 9 + r.Intn(3)
+	s0 := g.nInstr
+	pl, xl, l1 := g.label(), g.label(), g.label()
+	g.emit("li %s, %d", t, 4*(s0+5))
+	g.emit("j %s", xl)
+	g.place(pl)
+	g.emit("li %s, %d", t, 4*(s0+8+nf))
+	g.place(xl)
+	g.emit("jalr zero, %s, 0", t)
+	g.emit("addi %s, zero, 99", nm(12))
+	g.place(l1)
+	g.emit("addi %s, %s, 1", x, x)
+	for i := 0; i < nf; i++ {
+		if r.Intn(2) == 0 {
+			g.emit("addi %s, zero, %d", nm(2+i%10), g.smallImm())
+		} else {
+			g.emit("add %s, %s, %s", nm(2+i%10), x, t)
+		}
+	}
+	g.emit("j %s", pl)
+	g.emit("addi %s, zero, 98", nm(12))
+	post := r.Intn(3)
+	for i := 0; i < post; i++ {
+		g.emit("add %s, %s, %s", nm(13+i), x, nm(2+i))
+	}
+	if r.Intn(2) == 0 {
+		g.emit("ret")
+	}
+	return cpuCase{family: "dispatch", text: g.text(), regs: initRegs(r, g), memSize: ms, mem: make([]int8, ms)}
+}
+
 func genCase(r *rand.Rand, family string) cpuCase {
 	switch family {
+	case "dispatch":
+		return genDispatch(r)
 	case "alu":
 		return genAlu(r)
 	case "dep":
